@@ -18,15 +18,22 @@
    counts come from the document; n = number of bytes + 1 suffices).  The run ends at the first exception of
    the reader (result None of the run), or with Some None where the scope classes throw an exception of their own
    (unsupported key type).
-   FRAGMENT (frag_reqs h = true): THE WHOLE HISTORY LANGUAGE EXCEPT THE GUARDED REQUEST ATry: RGet (any key kind, any
+   FRAGMENT (frag_reqs h = true): THE WHOLE HISTORY LANGUAGE, the guarded request only around an element load: RGet (any key kind, any
    target), RObj, RArr with element requests AGet / AObj / AArr / ABin / AEnd, RBin (byte array: the binary scope and n
    byte loads), RVisit (VisitKeys without a callback), REach (VisitKeys with a callback that, under the visited key,
    does nothing / loads a value / opens an object / an array / a byte array / a byte array with the array fallback:
    VSkip / VGet / VObj / VArr / VBin / VBinArr — what SerializeMapImpl does), all nested to any depth and in any
    order — repeated keys, absent keys, keys requested out of order (the wrap-around with its rewind), arrays and byte
    arrays left partly read included.  AThrow / VThrow (the caller's own code throws) are admitted: the client stops
-   there with Some None; an error-free history never executes one.  NOT re-expressed as a client: ATry (try { } catch
-   (OutOfRange) around an element request; no library code uses it since 9e55af6).
+   there with Some None; an error-free history never executes one.
+   THE GUARDED REQUEST ATry a (try { a } catch (OutOfRange) { }, written by the CALLER of the array scope; no library
+   code does since 9e55af6) is in the fragment for a = AGet t: "No more items to load" is raised by the scope's own
+   CheckEnd BEFORE any reader call, so the client catches it by not issuing the read (token KCaught, nothing moved)
+   — exactly the exhaustion of the array the request is made on, what the specification's ATry catches.  Around a
+   request that opens a child scope (AObj / AArr / ABin) the C++ catch also catches an OutOfRange raised INSIDE the
+   child after the child's destructors have run during stack unwinding (the scope model's ATry does that too, the
+   specification's does not: such histories end in the error there and are outside T_C03_mp_refines): a client of the
+   reader interface in continuation-passing form has no unwinding, so those guarded requests stay outside frag_areq.
    scope_client_arr n h: the same for a history h on a root ARRAY (OpenArrayScope at the root).
    Further operations of the client:
      OpenArrayScope            RdArr
@@ -133,6 +140,72 @@ Proof.
 Qed.
 Print Assumptions T_C03_stream_equals_memory_arr.
 
+(* ---------------------------------------------------------------- histories that END IN AN EXCEPTION *)
+(* obj_root_res / arr_root_res .. data h = the root scope's run before finish_root: (tokens, outcome, flag);
+   run_obj_root = finish_root of it.  Outcome Raise se u p = the history ended in the exception se: SE e = a
+   SerializationException / ParsingException of class e (mismatch or overflow under the Throw policy, a malformed or
+   truncated value, an unsupported key type), SERange = "No more items to load".  Flag false = no scope failed to
+   close, neither before the exception nor while it propagated (a destructor that cannot skip its rest swallows that
+   error and goes on: the client has no counterpart of that; on a document the reference decoder accepts no destructor
+   fails).  THEN, for every chunk size K >= 8 on a seekable stream, the scope classes over the stream reader issue
+   exactly the reader operations, with exactly the answers, they issue over the string reader (the transcript), and the
+   run ends the same way: in the READER's exception of the same class e at the same call (the transcript ends with
+   (op, AErrOf e)), or — when the exception is one the scope classes or their caller raise themselves without a
+   reader call ("No more items to load", "Unsupported key type", the caller's own throw) — with the client stopping
+   (result Some None) after the same calls *)
+Theorem T_C03_stream_error_equals_memory : forall K narrow widen o data fuel n h toks se u p,
+  (8 <= K)%nat -> fits_streamoff data -> bytes_ok data -> (length data < fuel)%nat -> (length data < n)%nat ->
+  frag_reqs h = true ->
+  obj_root_res narrow widen o data h = (toks, Raise se u p, false) ->
+  run_obj_root narrow widen o data h = Failed toks se /\
+  mps_client_bsr narrow widen K (stream_of data true) fuel o (scope_client n h) =
+    Ok (str_client_run narrow widen data o (scope_client n h)) /\
+  (snd (str_client_run narrow widen data o (scope_client n h)) = Some None \/
+   exists e tr op, se = SE e /\ str_client_run narrow widen data o (scope_client n h) = (tr ++ [(op, AErrOf e)], None)).
+Proof.
+  intros K narrow widen o data fuel n h toks se u p HK Hf Hb Hfuel Hn Hfr H.
+  split; [rewrite obj_root_res_final, H; reflexivity|]. split.
+  - apply client_on_chunked_stream; try assumption. apply scope_client_seeks_ok.
+  - exact (EC_run narrow widen o data se _ (scope_client_fail narrow widen o data K HK Hf Hb n h toks se u p Hn Hfr H)).
+Qed.
+Print Assumptions T_C03_stream_error_equals_memory.
+
+Theorem T_C03_stream_error_equals_memory_arr : forall K narrow widen o data fuel n h toks se u p,
+  (8 <= K)%nat -> fits_streamoff data -> bytes_ok data -> (length data < fuel)%nat -> (length data < n)%nat ->
+  frag_areqs h = true ->
+  arr_root_res narrow widen o data h = (toks, Raise se u p, false) ->
+  run_arr_root narrow widen o data h = Failed toks se /\
+  mps_client_bsr narrow widen K (stream_of data true) fuel o (scope_client_arr n h) =
+    Ok (str_client_run narrow widen data o (scope_client_arr n h)) /\
+  (snd (str_client_run narrow widen data o (scope_client_arr n h)) = Some None \/
+   exists e tr op, se = SE e /\ str_client_run narrow widen data o (scope_client_arr n h) = (tr ++ [(op, AErrOf e)], None)).
+Proof.
+  intros K narrow widen o data fuel n h toks se u p HK Hf Hb Hfuel Hn Hfr H.
+  split; [rewrite arr_root_res_final, H; reflexivity|]. split.
+  - apply client_on_chunked_stream; try assumption. apply scope_client_arr_seeks_ok.
+  - exact (EC_run narrow widen o data se _ (scope_client_arr_fail narrow widen o data K HK Hf Hb n h toks se u p Hn Hfr H)).
+Qed.
+Print Assumptions T_C03_stream_error_equals_memory_arr.
+
+(* not vacuous: ex_doc under the Throw policies, the byte array "b" requested as a string: the model ends in
+   MismatchedTypes after [KOpen] with the flag clear; over the chunk-size-8 stream the run makes 13 reader calls, the
+   last one the string read that throws *)
+Definition sx_err_prog : reqs :=
+  RCons (RGet (QStr [0x62]) TgStr) (RCons (RObj (QU 7) (RCons (RGet (QStr [0x78]) (TgInt s32)) RNil)) RNil).
+Example T_C03s_stream_error_example :
+  frag_reqs sx_err_prog = true /\
+  obj_root_res no_narrow id_widen (mkOpts PThrow PThrow) ex_doc sx_err_prog =
+    ([KOpen], Raise (SE EMismatch) tt (Some [0xC4; 0x02; 0x01; 0x02; 0x2A]), false) /\
+  match mps_client_bsr no_narrow id_widen 8 (stream_of ex_doc true) 100 (mkOpts PThrow PThrow) (scope_client 25 sx_err_prog) with
+  | Ok (tr, res) => res = None /\ length tr = 13%nat /\ last tr (RdNil, AFuelOut) = (RdStr, AErrOf EMismatch)
+  | Fault => False
+  end.
+Proof.
+  split; [vm_compute; reflexivity|]. split; [vm_compute; reflexivity|].
+  vm_compute. split; [reflexivity|]. split; reflexivity.
+Qed.
+Print Assumptions T_C03s_stream_error_example.
+
 (* not vacuous: { "k":5, 7:{ "x":nil }, "arr":[1,"s"], "b":bin(1,2) } followed by 0x2A, chunk size 8; the array first
    (one of its two elements read, IsEnd asked, the rest passed by the destructor), then the nested object (found only
    after a wrap-around: rewind to 1; in it VisitKeys: rewind to the child's mStartPos = 6, then a key found after a
@@ -187,8 +260,9 @@ Proof. split; [vm_compute; reflexivity|]. vm_compute. split; reflexivity. Qed.
 Print Assumptions T_C03s_stream_example_bytes.
 
 (* NOT stated here:
-   - the guarded request ATry as a client;
-   - histories that end in an error: the client's run ends at the reader's exception; what the unwinding
-     destructors do over a stream is not part of the client run (MpStreamModel.v: the run ends at the first
-     exception);
+   - the guarded request around a request that opens a child scope (ATry (AObj / AArr / ABin ..)) as a client;
+   - error-ending histories in which a scope FAILED TO CLOSE (flag set: ill-formed or truncated documents where a
+     destructor could not skip its rest): the C++ destructor swallows that error and the program goes on, the client's
+     run ends there; and what the unwinding destructors do over a stream after the exception (MpStreamModel.v: the
+     run ends at the first exception);
    - non-seekable streams: FindValueByKey's rewind is refused there (the T_C10mp_nonseekable theorems). *)
